@@ -86,7 +86,7 @@ PROPERTIES = {
     },
     'C09': {
         'units': [ps.RulerCtor, ps.SimpsonWeights, ps.UpdateXProjection, ps.UpdateYProjection, ps.Integrate, ps.Normalize,
-                  ps.Average, ps.Variance, ps.Swap, ps.Assign, ps.PhaseSpaceCtor, ps.PhaseSpaceCtor8, ps.PhaseSpaceCtor12, ps.PhaseSpaceCopyCtor, ps.CreateFromProjections, ps.Gaus],
+                  ps.Average, ps.Variance, ps.Swap, ps.Assign, ps.PhaseSpaceCtor, ps.PhaseSpaceCtor8, ps.PhaseSpaceCtor12, ps.PhaseSpaceCopyCtor, ps.CreateFromProjections, ps.Gaus, mainspec.MainStartDistribution],
         'lemmas': [ps.lemmas_normalize],
         'native_sweep': {'harness': 'ps_replay', 'runs': [['moments', N_, nb_, sd_] for N_ in (8, 9, 16, 17, 33) for nb_ in (1, 2, 3, 5) for sd_ in (1, 2)]},
         'level': 'proof',
@@ -183,7 +183,7 @@ PROPERTIES = {
         'units': SM_KICK + SM_FP + [sm.IdentityApply, sm.KickMapApplyTo, sm.FokkerPlanckApplyTo,
                                     ps.RulerCtor, ps.SimpsonWeights, ps.UpdateXProjection, ps.UpdateYProjection, ps.Integrate, ps.Normalize, ps.Average, ps.Variance, ps.Swap, ps.MakePSFromTXTLoop, ps.PhaseSpaceCtor, ps.PhaseSpaceCtor8, ps.PhaseSpaceCtor12, ps.PhaseSpaceCopyCtor, ps.CreateFromProjections, ps.Gaus,
                                     ef.PadBunchProfiles, ef.WakePotential, ef.UpdateCSR, ef.ElectricFieldCtor, ef.ElectricFieldCtor11, ef.InitWakeLossFFT,
-                                    mainspec.MainConfig, mainspec.MainTrackingFile, io.HDF5FileSources, io.HDF5AppendField, io.HDF5AppendTracks, io.ReadPhaseSpace] + Z_UNITS,
+                                    mainspec.MainConfig, mainspec.MainTrackingFile, mainspec.MainStartDistribution, io.HDF5FileSources, io.HDF5AppendField, io.HDF5AppendTracks, io.ReadPhaseSpace] + Z_UNITS,
         'leaves': [leaf.UpperPow2Leaf, leaf.FPApplyToLeaf, leaf.KickApplyToLeaf, leaf.PSxLeaf, leaf.PSyLeaf],
         'lemmas': [],
         'level': 'other',
